@@ -101,6 +101,11 @@ impl Run {
         self.coverage.insert("inconclusive_reasons".into(), json!(self.inconclusive));
         self.coverage.insert("known_findings_reported".into(), json!(self.known_printed));
         self.coverage.insert("violation_replays".into(), json!(self.violations));
+        if let Ok(legs) = std::env::var("VERIF_SANITIZER_LEGS") {
+            if let Ok(j) = serde_json::from_str::<J>(&legs) {
+                self.coverage.insert("sanitizer_legs".into(), j);
+            }
+        }
         let ev = json!({
             "property_id": self.prop,
             "tier": self.tier.name(),
